@@ -1,0 +1,128 @@
+//go:build verif
+
+package layers
+
+// ---- SCTP chunk decoders (C19 / C01 / C02 / C04) ----------------------------------------------------------------
+
+// A decoded chunk header lies inside data: the length field covers at least the 4 header bytes and at most
+// data, the padded length (16 for DATA chunks) is inside data too, and the payload is strictly shorter than data.
+//@ func decodeSCTPChunk(data []byte) (SCTPChunk, error)
+//@   props C19 C01 C02 C04
+//@   ensures result1 == nil ==> len(data) >= 4 && 4 <= result0.Length && result0.Length <= len(data)
+//@   ensures result1 == nil ==> 4 <= result0.ActualLength && result0.ActualLength <= len(data)
+//@   ensures result1 == nil ==> len(result0.BaseLayer.Payload) < len(data)
+
+// A parameter is cut out of data; what is left behind it is strictly shorter.
+//@ func decodeSCTPParameter(data []byte) (SCTPParameter, []byte, error)
+//@   props C19 C01 C02 C04
+//@   ensures result2 == nil ==> len(result1) < len(data)
+
+// ---- IPv6 and its extension headers (C19 / C01 / C02 / C04) -------------------------------------------------------
+
+// The common prefix of all extension headers: the header (8*HeaderLength+8 bytes) lies inside data.
+//@ func decodeIPv6ExtensionBase(data []byte, df gopacket.DecodeFeedback) (i ipv6ExtensionBase, returnedErr error)
+//@   props C19 C01 C02 C04
+//@   ensures returnedErr == nil ==> 8 <= i.ActualLength && i.ActualLength <= len(data)
+//@   ensures returnedErr == nil ==> len(i.BaseLayer.Contents) == i.ActualLength && len(i.BaseLayer.Payload) == len(data) - i.ActualLength
+
+// Every decoded option consumes at least one byte.
+//@ func decodeIPv6HeaderTLVOption(data []byte, df gopacket.DecodeFeedback) (h *ipv6HeaderTLVOption, _ error)
+//@   props C19 C01 C02 C04
+//@   ensures result1 == nil ==> h != nil && 1 <= h.ActualLength && h.ActualLength <= len(data)
+
+//@ func (i *IPv6HopByHop) DecodeFromBytes(data []byte, df gopacket.DecodeFeedback) error
+//@   props C19 C01 C02 C04
+//@   ensures result == nil ==> 8 <= i.ipv6ExtensionBase.ActualLength && i.ipv6ExtensionBase.ActualLength <= len(data)
+//@   ensures result == nil ==> len(i.ipv6ExtensionBase.BaseLayer.Payload) == len(data) - i.ipv6ExtensionBase.ActualLength
+//@   ensures result == nil ==> forall k int :: 0 <= k && k < len(i.Options) ==> i.Options[k] != nil
+//@   loop 0: invariant 2 <= offset && 8 <= i.ipv6ExtensionBase.ActualLength && i.ipv6ExtensionBase.ActualLength <= len(data)
+//@   loop 0: invariant len(i.ipv6ExtensionBase.BaseLayer.Payload) == len(data) - i.ipv6ExtensionBase.ActualLength
+//@   loop 0: invariant forall k int :: 0 <= k && k < len(i.Options) ==> i.Options[k] != nil
+//@   loop 0: decreases len(data) - offset
+
+//@ func (i *IPv6Destination) DecodeFromBytes(data []byte, df gopacket.DecodeFeedback) error
+//@   props C19 C01 C02 C04
+//@   ensures result == nil ==> 8 <= i.ipv6ExtensionBase.ActualLength && i.ipv6ExtensionBase.ActualLength <= len(data)
+//@   ensures result == nil ==> len(i.ipv6ExtensionBase.BaseLayer.Payload) == len(data) - i.ipv6ExtensionBase.ActualLength
+//@   loop 0: invariant 2 <= offset && 8 <= i.ipv6ExtensionBase.ActualLength && i.ipv6ExtensionBase.ActualLength <= len(data)
+//@   loop 0: invariant len(i.ipv6ExtensionBase.BaseLayer.Payload) == len(data) - i.ipv6ExtensionBase.ActualLength
+//@   loop 0: decreases len(data) - offset
+
+// The jumbo option is searched in a list of options without nil entries (what the hop-by-hop decoder builds).
+//@ func getIPv6HopByHopJumboLength(hopopts *IPv6HopByHop) (uint32, bool, error)
+//@   props C19 C01 C02 C04
+//@   requires forall k int :: 0 <= k && k < len(hopopts.Options) ==> hopopts.Options[k] != nil
+
+//@ func (ipv6 *IPv6) DecodeFromBytes(data []byte, df gopacket.DecodeFeedback) error
+//@   props C19 C01 C02 C04
+// (the hop-by-hop decoder works on the embedded ipv6.hbh; the engine's frame is per field, not per object, so what
+// is known about ipv6.Payload after that call is only stated for packets without a hop-by-hop header)
+//@   ensures result == nil && ipv6.HopByHop == nil ==> len(ipv6.BaseLayer.Payload) <= len(data) - 40
+//@   ensures result == nil && ipv6.HopByHop != nil ==> len(ipv6.hbh.ipv6ExtensionBase.BaseLayer.Payload) <= len(data) - 48
+
+// ---- MLDv2 listener report (C19 / C01 / C02 / C04) ----------------------------------------------------------------
+
+// A decoded address record occupies at least its 20 fixed bytes and lies inside data.
+//@ func (m *MLDv2MulticastAddressRecord) decode(data []byte, df gopacket.DecodeFeedback) (int, error)
+//@   props C19 C01 C02 C04
+//@   ensures result1 == nil ==> 20 <= result0 && result0 <= len(data)
+
+//@ func (m *MLDv2MulticastListenerReportMessage) DecodeFromBytes(data []byte, df gopacket.DecodeFeedback) error
+//@   props C19 C01 C02 C04
+//@   loop 0: invariant 4 <= begin && begin <= len(data) && 0 <= i
+//@   loop 0: decreases m.NumberOfMulticastAddressRecords - i
+
+// ---- Dot11 information element helper (C19) ---------------------------------------------------------------------
+
+// The helper gets the address of its caller's (non-nil) DecodeFeedback.
+//@ func checkOffsetLength(start int, end int, df *gopacket.DecodeFeedback) error
+//@   props C19 C01 C02 C04
+//@   requires df != nil && *df != nil
+//@   ensures result == nil ==> start <= end
+
+// ---- Cisco Discovery Protocol (C19 / C01 / C02 / C04) -------------------------------------------------------------
+
+// Both callers check that the TLV value holds at least the 4-byte address count.
+//@ func decodeAddresses(v []byte) (addresses []net.IP, err error)
+//@   props C19 C01 C02 C04
+//@   requires len(v) >= 4
+//@   loop 0: invariant 0 <= i && len(v) >= 8
+
+// Loops: 0 = TLV values, 1 = IP prefixes (5 bytes each), 2 / 3 = power request / available levels, 4 = EnergyWise TLVs.
+//@ func decodeCiscoDiscoveryInfo(data []byte, p gopacket.PacketBuilder) error
+//@   props C19 C01 C02 C04
+//@   loop 1: invariant len(v) % 5 == 0
+//@   loop 2: invariant 4 <= n && n <= len(val.Value)
+//@   loop 2: decreases len(val.Value) - n
+//@   loop 3: invariant 4 <= n && n <= len(val.Value)
+//@   loop 3: decreases len(val.Value) - n
+
+// ---- sFlow (C19 / C01): sample and record loops are counted by 32-bit counters ------------------------------------
+
+//@ func (s *SFlowDatagram) DecodeFromBytes(data []byte, df gopacket.DecodeFeedback) error
+//@   props C19 C01 C02 C04
+//@   loop 0: invariant 0 <= i
+//@   loop 0: decreases s.SampleCount - i
+
+//@ func decodeFlowSample(data *[]byte, expanded bool) (SFlowFlowSample, error)
+//@   props C19 C01 C02 C04
+//@   loop 0: invariant 0 <= i
+//@   loop 0: decreases s.RecordCount - i
+
+//@ func decodeCounterSample(data *[]byte, expanded bool) (SFlowCounterSample, error)
+//@   props C19 C01 C02 C04
+//@   loop 0: invariant 0 <= i
+//@   loop 0: decreases s.RecordCount - i
+
+// The member count was checked against the remaining bytes: 4 bytes are left for every member still to be read.
+//@ func (ad *SFlowASDestination) decodePath(data *[]byte) error
+//@   props C19 C01 C02 C04
+//@   loop 0: invariant 0 <= i && i <= ad.Count && len(ad.Members) == ad.Count && 4*(ad.Count - i) <= len(*data)
+//@   loop 0: decreases ad.Count - i
+
+//@ func decodeExtendedGatewayFlowRecord(data *[]byte) (SFlowExtendedGatewayFlowRecord, error)
+//@   props C19 C01 C02 C04
+//@   loop 0: invariant 0 <= i
+//@   loop 0: decreases eg.ASPathCount - i
+//@   loop 1: invariant 0 <= j && j <= communitiesLength && len(eg.Communities) == communitiesLength && 4*(communitiesLength - j) <= len(*data)
+//@   loop 1: decreases communitiesLength - j
